@@ -3,8 +3,8 @@
    Encoding conventions: booleans 0/1, option Z as -1 where stated, errors as a leading status group.
    Per-property command sets live in model/Run_Cxx.v (run_cxx : Z -> io -> option io). *)
 From CM Require Import lib.Prelude model.RunBase model.Startbit model.Codec model.ArbId.
-From CM Require model.Run_C03 model.Run_C11 model.Run_C17 model.Run_C12.
-Import Run_C03 Run_C11 Run_C17 Run_C12.
+From CM Require model.Run_C03 model.Run_C11 model.Run_C17 model.Run_C12 model.Run_C06 model.Run_C07 model.Run_C19 model.Run_C13 model.Run_C16 model.Run_C04 model.Run_C05 model.Run_C10 model.Run_C14.
+Import Run_C03 Run_C11 Run_C17 Run_C12 Run_C06 Run_C07 Run_C19 Run_C13 Run_C16 Run_C04 Run_C05 Run_C10 Run_C14.
 
 (* all six (bit_numbering, start_little) notations, in the order the harness uses *)
 Definition notations : list (option Z * bool) :=
@@ -117,5 +117,14 @@ Definition run (cmd : Z) (a : io) : io :=
   else if h =? 11 then run_c11 cmd a
   else if h =? 17 then run_c17 cmd a
   else if h =? 12 then run_c12 cmd a
+  else if h =? 6 then run_c06 cmd a
+  else if h =? 7 then run_c07 cmd a
+  else if h =? 19 then run_c19 cmd a
+  else if h =? 13 then run_c13 cmd a
+  else if h =? 16 then run_c16 cmd a
+  else if h =? 4 then run_c04 cmd a
+  else if h =? 5 then run_c05 cmd a
+  else if h =? 10 then run_c10 cmd a
+  else if h =? 14 then run_c14 cmd a
   else run_core cmd a.
 Definition mismatches := mismatches_with run.
